@@ -6,11 +6,11 @@ S = set
 BASE = dict(
     Accts=S(['a1', 'a2', 'a3']), FeeUnit=1000, MaxHeight=3,
     Topics=S(), Descs=S(['x']), Mons=S(['m']), RecKeys=S(['k1']), RecVals=S(['v1', 'v2']), FeePayers=S(['none']),
-    Dids=S(), DocNames=S(), Keys=S(), VmNames=S(),
+    Dids=S(), DocNames=S(), Keys=S(), VmNames=S(), Seqs=S([0, 1, 2]),
     DenomIds=S(), TokenIds=S(), DNames=S(),
     Amts=S(), SendDenoms=S(), VestEnds=S(),
     Fees=S([0]), Kinds=S(), SignerSets='exact', ExecOn=False,
-    MaxDeliver=5, MaxTxLen=1, Mints=S([0]), NextKinds=S(['BeginBlock']), FailKeep=1,
+    MaxDeliver=5, MaxTxLen=1, Mints=S([0]), NextKinds=S(['BeginBlock']), FailKeep=1, SimSample=0, BlockKeep=1,
     ViewTopics=S(), ViewDids=S(), ViewDenoms=S(), ViewTokens=S(),
 )
 
@@ -61,6 +61,10 @@ def burn(**kw):
 
 
 def sim(constants, num, depth, genesis=None, views=''):
+    if constants.get('SimSample', 0) == 0:
+        constants = dict(constants, SimSample=40)
+    if constants.get('BlockKeep', 1) == 1:
+        constants = dict(constants, BlockKeep=4, MaxHeight=max(constants['MaxHeight'], 12))
     return dict(constants=constants, num=num, depth=depth, genesis=genesis or {}, views=views)
 
 
@@ -71,13 +75,15 @@ def preset(pid, tier):
             mc=aol(MaxDeliver=5 if q else 6, NextKinds=ALL_NEXT, MaxHeight=3),
             props=['P_C01', 'P_C08', 'P_C10'], invs=['I_C01'],
             sims=[sim(aol(Accts=S(['a1', 'a2', 'a3', 'a4']), Topics=S(['t1', 't2', 't3']), ViewTopics=S(['t1', 't2', 't3']), RecKeys=S(['k1', 'k2', '']), RecVals=S(['v1', 'v2', '']),
-                          MaxDeliver=40, MaxHeight=8, NextKinds=ALL_NEXT, FailKeep=6), 120 if q else 2000, 40),
-                  sim(aol(MaxDeliver=12, MaxHeight=6, NextKinds=ALL_NEXT, FailKeep=3), 80 if q else 1500, 25, genesis=dict(mint=True))])
+                          MaxDeliver=40, MaxHeight=8, NextKinds=ALL_NEXT, FailKeep=40), 120 if q else 2000, 50),
+                  sim(aol(MaxDeliver=12, MaxHeight=6, NextKinds=ALL_NEXT, FailKeep=10), 80 if q else 1500, 25, genesis=dict(mint=True))])
     if pid == 'C02':
         return dict(
             mc=aol(Topics=S(['t1']), ViewTopics=S(['t1']), RecVals=S(['v1']), SignerSets='all', FeePayers=S(['none', 'a1', 'a2']), MaxDeliver=4 if q else 5,
                    ExecOn=True, Kinds=AOL_KINDS | S(['authz.Grant']), MaxHeight=2),
             props=['P_C02'], invs=[],
+            tour=aol(Accts=S(['a1', 'a2', 'a3']), Topics=S(['t1']), ViewTopics=S(['t1']), RecVals=S(['v1']), SignerSets='all', FeePayers=S(['none', 'a1', 'a2']),
+                     MaxDeliver=3 if q else 4, MaxHeight=2, ExecOn=False),
             sims=[sim(aol(Accts=S(['a1', 'a2', 'a3', 'a4']), SignerSets='all', FeePayers=S(['none', 'a1', 'a2', 'a3']), ExecOn=True,
                           Kinds=AOL_KINDS | S(['authz.Grant', 'authz.Revoke']), Fees=S([0, 1]), MaxDeliver=40, MaxHeight=6, FailKeep=8), 150 if q else 3000, 40)])
     if pid == 'C13':
@@ -85,7 +91,7 @@ def preset(pid, tier):
             mc=aol(MaxDeliver=5 if q else 6, MaxHeight=2),
             props=[], invs=['I_C13'],
             sims=[sim(aol(Accts=S(['a1', 'a2', 'a3', 'a4']), Topics=S(['t1', 't2', 't3', 't4']), ViewTopics=S(['t1', 't2', 't3', 't4']),
-                          MaxDeliver=50, MaxHeight=5, FailKeep=8), 60 if q else 1000, 50, views='full')])
+                          MaxDeliver=50, MaxHeight=5, FailKeep=60), 60 if q else 1000, 60, views='full')])
     if pid == 'C15':
         kinds = S(['aol.CreateTopic', 'aol.AddWriter', 'aol.AddRecord', 'did.Create', 'pnft.CreateDenom', 'pnft.Mint'])
         c = mk(Topics=S(['t1']), ViewTopics=S(['t1']), RecVals=S(['v1']), FeePayers=S(['none', 'a2']), Accts=S(['a1', 'a2']),
@@ -93,8 +99,8 @@ def preset(pid, tier):
                DenomIds=S(['n1']), TokenIds=S(['i1']), DNames=S(['x']), ViewDenoms=S(['n1']), ViewTokens=S(['i1']),
                Kinds=kinds, Fees=S([0, 1]), MaxTxLen=2, MaxDeliver=2 if q else 3, MaxHeight=2)
         big = copy.deepcopy(c)
-        big.update(Accts=S(['a1', 'a2', 'a3']), Topics=S(['t1', 't2']), ViewTopics=S(['t1', 't2']), MaxDeliver=25, MaxHeight=5, FailKeep=3,
-                   Kinds=kinds | S(['aol.DeleteWriter', 'did.Update', 'did.Deactivate', 'pnft.Transfer', 'pnft.Burn']), DocNames=S(['A1', 'A2']), Keys=S(['k1', 'k2']))
+        big.update(Accts=S(['a1', 'a2', 'a3']), FeePayers=S(['none', 'a1', 'a3']), MaxDeliver=20, MaxHeight=5, FailKeep=2,
+                   Kinds=kinds | S(['aol.DeleteWriter']), DocNames=S(['A1', 'A2']), Keys=S(['k1', 'k2']))
         return dict(mc=c, props=['P_C15'], invs=[], sims=[sim(big, 100 if q else 2000, 30)], mc_timeout=2400)
     if pid in ('C03', 'C04', 'C05', 'C11'):
         props = {'C03': ['P_C03'], 'C04': ['P_C04'], 'C05': ['P_C05', 'P_C08', 'P_C10'], 'C11': []}[pid]
